@@ -54,7 +54,7 @@ correspondence suite identifies with the compiler's output) -/
 configuration whose stack holds the frame peak, never reaches the halted state on its committed
 timeline. -/
 theorem core_never_halts (cf : Core.Config) (args : List Int) (pr : Core.CProg) (hw : 2 ≤ cf.w)
-    (hB : Core.progLen cf.checked pr + stdlibLength < 256 ^ cf.w) (hSE : Core.F0 cf args < 256 ^ cf.w)
+    (hB : Core.progLen cf.checked pr + stdlibLength < 256 ^ cf.w) (hSE : Core.F0 cf args + Core.regsLen cf.w pr < 256 ^ cf.w)
     (hwf : Core.wfProg pr = true) (hlen : args.length = pr.params.length)
     (fuel : Nat) (env' : Core.Env) (tr : List Ev) (res : Core.Res)
     (hex : Core.srcRun cf fuel args pr = some (env', tr, res))
